@@ -127,6 +127,23 @@ def check(facts, rep, tier, cfg):
     drops = [b for b in crate.bodies if b.name == "drop" and b.j.get("impl_self", {}).get("adt") == BR]
     if not reply_bodies:
         rep.bad("C15.R3", "reply-fn", "", "no reply function on BindRequest (anchor missing)")
+    # a fresh request has not been replied to: every bool / AtomicBool state field of BindRequest is initialised to false
+    ninit = 0
+    for ib, ibi, ist, ifields in struct_inits(facts, crate, BR):
+        itr = Tracer(facts, ib)
+        for fname, op in ifields.items():
+            v = strip(itr.operand(op))
+            if v.kind == "call" and v[6] == "new" and ("AtomicBool" in v[2] or "Atomic::<bool>" in v[2]):
+                ninit += 1
+                cv = const_eval(v[3][0]) if v[3] else None
+                wi = "%s (%s)" % (loc_str(ist["loc"]), ib.path)
+                if cv == 0:
+                    rep.ok("C15.R3", "fresh-request-not-replied/%s" % fname, wi, "%s starts false" % fname)
+                else:
+                    rep.bad("C15.R3", "fresh-request-not-replied/%s" % fname, wi,
+                            "a freshly received BindRequest is created with `%s` already set: reply() and Drop then send nothing and the peer's "
+                            "request is never answered" % fname)
+    rep.floor("C15.R3", "BindRequest state initialisers", ninit, 1)
     for rb, rtr, sends in reply_bodies:
         rep.analysed(rb)
         consumes = not rb.locals[1]["s"].startswith("&")
